@@ -866,6 +866,17 @@ func (db *DB) Drop() (err error) {
 	db.Lock()
 	defer db.Unlock()
 
+	// nothing of the dropped database must survive in memory: a schema left
+	// loaded keeps counting and constraining with its index, and is written
+	// back, as cached objects and pending writes are, by the next commit or flush
+	for _, s := range db.schemas {
+		// retires the asynchronous writes routine of the schema
+		s.AsyncWrites = nil
+	}
+	db.schemas = make(map[string]*Schema)
+	db.cache = newObjectStore()
+	db.asyncw = newObjectStore()
+
 	return os.RemoveAll(db.root)
 }
 
